@@ -967,6 +967,44 @@ impl Profile {
   }
 }
 
+/// Per-schema switches (validation workloads): most schemas use only a few construct
+/// families, so that a disagreement shows up in a context free of unrelated constructs.
+#[derive(Clone, Debug)]
+pub struct Features {
+  pub map_occ_multi: bool,
+  pub controls: bool,
+  pub ranges: bool,
+  pub neg_ranges: bool,
+  pub tables: bool,
+  pub table_mix: bool,
+  pub map_grpchoice: bool,
+  pub bare_prelude_keys: bool,
+  pub text_lit_types: bool,
+  pub map_inline: bool,
+  pub empty_choices: bool,
+}
+
+impl Features {
+  pub fn all() -> Features {
+    Features { map_occ_multi: true, controls: true, ranges: true, neg_ranges: true, tables: true, table_mix: true, map_grpchoice: true, bare_prelude_keys: true, text_lit_types: true, map_inline: true, empty_choices: true }
+  }
+  pub fn random(rng: &mut Rng) -> Features {
+    Features {
+      map_occ_multi: rng.chance(1, 4),
+      controls: rng.chance(1, 3),
+      ranges: rng.chance(1, 2),
+      neg_ranges: rng.chance(1, 3),
+      tables: rng.chance(1, 2),
+      table_mix: rng.chance(1, 4),
+      map_grpchoice: rng.chance(1, 4),
+      bare_prelude_keys: rng.chance(1, 10),
+      text_lit_types: rng.chance(2, 5),
+      map_inline: rng.chance(1, 5),
+      empty_choices: rng.chance(1, 5),
+    }
+  }
+}
+
 struct Sig {
   name: String,
   arity: usize,
@@ -987,6 +1025,7 @@ pub struct Gen<'r> {
   cur: usize,
   /// nesting depth inside array / map / tag constructors (references there are guarded)
   guard: usize,
+  pub f: Features,
 }
 
 const NAME_POOL: &[&str] = &["r", "foo", "bar-baz", "a.b", "@at", "_u", "x1", "T", "my-type", "n$x", "q.r-s", "zz9", "Item", "node", "leaf", "v-1.2"];
@@ -996,7 +1035,8 @@ impl<'r> Gen<'r> {
     let allow_any_hash = rng.chance(1, 4);
     let allow_paren_key = rng.chance(1, 6);
     let allow_bare_group_rule = rng.chance(1, 8);
-    Gen { rng, p, allow_any_hash, allow_paren_key, allow_bare_group_rule, sigs: vec![], params: vec![], cur: 0, guard: 0 }
+    let f = if p.wild_refs { Features::all() } else { Features::random(rng) };
+    Gen { rng, p, allow_any_hash, allow_paren_key, allow_bare_group_rule, sigs: vec![], params: vec![], cur: 0, guard: 0, f }
   }
 
   fn lit_uint(&mut self) -> u64 {
@@ -1120,7 +1160,10 @@ impl<'r> Gen<'r> {
       if self.allow_any_hash { 1 } else { 0 },              // any
     ];
     match self.rng.weighted(&w) {
-      0 => GType2::Lit(self.lit(true)),
+      0 => {
+        let allow_text = self.f.text_lit_types;
+        GType2::Lit(self.lit(allow_text))
+      }
       1 => self.name_ref(d),
       2 => GType2::Paren(self.type_(d - 1)),
       3 => {
@@ -1182,8 +1225,8 @@ impl<'r> Gen<'r> {
   /// ranges and controls that mean something (validation workloads)
   fn type1_semantic(&mut self, d: usize) -> Option<GType1> {
     let r = self.rng.below(12);
-    if r == 0 && self.p.ranges {
-      let lo = self.rng.range(-4, 6);
+    if r == 0 && self.p.ranges && self.f.ranges {
+      let lo = if self.f.neg_ranges { self.rng.range(-4, 6) } else { self.rng.range(0, 6) };
       let hi = lo + self.rng.range(0, 6);
       let mk = |n: i64| if n >= 0 { GLit::Uint(n as u64) } else { GLit::Nint(n as i128) };
       if self.p.floats && self.rng.chance(1, 4) {
@@ -1191,7 +1234,7 @@ impl<'r> Gen<'r> {
       }
       return Some(GType1 { t2: GType2::Lit(mk(lo)), op: Some((GOp::Range { incl: self.rng.bool() }, GType2::Lit(mk(hi)))) });
     }
-    if r == 1 && !self.p.controls.is_empty() {
+    if r == 1 && !self.p.controls.is_empty() && self.f.controls {
       let c = self.rng.pick(self.p.controls).to_string();
       let num = |g: &mut Gen| {
         let n = g.rng.range(-3, 6);
@@ -1279,8 +1322,12 @@ impl<'r> Gen<'r> {
     if !map && r < 6 {
       return None;
     }
+    let r = if r >= 7 && !self.f.tables { self.rng.below(7) } else { r };
     match r {
-      0..=4 => Some(GKey::Bare(self.rng.pick(&["a", "b", "k", "key", "x-y", "n.1", "_z", "int", "tstr"]).to_string())),
+      0..=4 => {
+        let pool: &[&str] = if self.f.bare_prelude_keys { &["a", "b", "k", "int", "tstr", "x-y"] } else { &["a", "b", "k", "key", "x-y", "n.1", "_z"] };
+        Some(GKey::Bare(self.rng.pick_str(pool).to_string()))
+      }
       5 | 6 => {
         let l = if self.p.nontext_keys { self.lit(true) } else { GLit::Text(self.rng.pick(self.p.text_pool).to_string()) };
         Some(GKey::Value(l))
@@ -1308,7 +1355,7 @@ impl<'r> Gen<'r> {
 
   pub fn entry(&mut self, d: usize, map: bool) -> GEntry {
     let r = self.rng.below(12);
-    if r == 0 && self.p.inline_groups && d > 0 {
+    if r == 0 && self.p.inline_groups && d > 0 && (!map || self.f.map_inline) {
       return GEntry::Inline { occ: self.occ(), group: self.group(d - 1, map) };
     }
     if r == 1 && self.p.group_rules {
@@ -1317,8 +1364,15 @@ impl<'r> Gen<'r> {
         return GEntry::Name { occ: self.occ(), name: n, args };
       }
     }
-    let occ = self.occ();
+    let mut occ = self.occ();
+    if map && !self.f.map_occ_multi && !matches!(occ, None | Some(GOcc::Opt)) {
+      occ = if self.rng.bool() { Some(GOcc::Opt) } else { None };
+    }
     let key = self.key(d, map);
+    // a table member keeps its multi-occurrence (that is what makes it a table)
+    if map && matches!(key, Some(GKey::Type1 { .. })) && occ.is_none() && self.rng.chance(2, 3) {
+      occ = Some(GOcc::Star);
+    }
     let mut ty = self.type_(d);
     if key.is_none() {
       // a keyless entry that starts with "(" is an inline group for the parser
@@ -1334,7 +1388,7 @@ impl<'r> Gen<'r> {
   }
 
   pub fn group(&mut self, d: usize, map: bool) -> GGroup {
-    let nc = if self.p.group_choices {
+    let nc = if self.p.group_choices && (!map || self.f.map_grpchoice) {
       match self.rng.below(10) {
         0..=6 => 1,
         7 => 2,
@@ -1355,7 +1409,14 @@ impl<'r> Gen<'r> {
         _ => self.p.max_entries,
       }
       .min(self.p.max_entries);
-      choices.push(GChoice { entries: (0..ne).map(|_| self.entry(d, map)).collect() });
+      let ne = if ne == 0 && !self.f.empty_choices && nc > 1 { 1 } else { ne };
+      let mut entries: Vec<GEntry> = (0..ne).map(|_| self.entry(d, map)).collect();
+      if map && !self.f.table_mix && entries.len() > 1 && entries.iter().any(|e| matches!(e, GEntry::Val { key: Some(GKey::Type1 { .. }), .. })) {
+        // a table stands alone unless mixing is switched on for this schema
+        entries.retain(|e| matches!(e, GEntry::Val { key: Some(GKey::Type1 { .. }), .. }));
+        entries.truncate(1);
+      }
+      choices.push(GChoice { entries });
     }
     GGroup { choices }
   }
